@@ -90,10 +90,9 @@ func checkC23(p *Prog, r *Report) {
 			}
 			nFree++
 			for _, f := range factsAt(c) {
-				if bo, ok := f.V.(*ssa.BinOp); ok && bo.Op == token.EQL && f.Val {
-					if tagsOf(bo.X, SliceOpts{})["call:(core.BuildLabel).Parent"] && tagsOf(bo.Y, SliceOpts{})["call:(core.BuildLabel).Parent"] {
-						okFree++
-					}
+				if sameRuleFact(f) {
+					okFree++
+					break
 				}
 			}
 		}
@@ -334,4 +333,45 @@ func (p *Prog) revdepsIndexComplete(r *Report, rule string) {
 func isInt(t types.Type) bool {
 	b, ok := t.Underlying().(*types.Basic)
 	return ok && b.Info()&types.IsInteger != 0
+}
+
+// sameRuleFact: does the fact say "both ends belong to the same rule"? Either an equality whose two operands are
+// Parent() results, or a true result of a repository helper that takes the parents of (at least) two of its parameters.
+func sameRuleFact(f Fact) bool {
+	if !f.Val {
+		return false
+	}
+	isParent := func(n string) bool {
+		return n == "(core.BuildLabel).Parent" || n == "(*core.BuildTarget).Parent"
+	}
+	switch v := f.V.(type) {
+	case *ssa.BinOp:
+		if v.Op != token.EQL {
+			return false
+		}
+		has := func(x ssa.Value) bool {
+			t := tagsOf(x, SliceOpts{})
+			return t["call:(core.BuildLabel).Parent"] || t["call:(*core.BuildTarget).Parent"]
+		}
+		return has(v.X) && has(v.Y)
+	case *ssa.Call:
+		g := v.Call.StaticCallee()
+		if g == nil || g.Blocks == nil || !strings.HasPrefix(fnPkg(g), modPath+"/src/") {
+			return false
+		}
+		prms := map[*ssa.Parameter]bool{}
+		eachInstr(g, false, func(_ *ssa.Function, i ssa.Instruction) {
+			cc := callCommon(i)
+			if cc == nil || !isParent(calleeName(cc)) || len(cc.Args) == 0 {
+				return
+			}
+			for x := range backSlice(cc.Args[0], SliceOpts{}) {
+				if prm, ok := x.(*ssa.Parameter); ok && prm.Parent() == g {
+					prms[prm] = true
+				}
+			}
+		})
+		return len(prms) >= 2
+	}
+	return false
 }
